@@ -1196,6 +1196,16 @@ func (c *Ctx) linksResetPerPass(fn *ssa.Function, f *types.Var) bool {
 			if !in || !blockReaches(st.Block(), e.Site.Block(), nil) {
 				continue
 			}
+			// every statement is cleared: the store is under no condition but those of the loops it sits in
+			conditional := false
+			for _, g := range guardsAt(st.Block()) {
+				if !isLoopHeader(g.If.Block()) {
+					conditional = true
+				}
+			}
+			if conditional {
+				continue
+			}
 			// which table the cleared statement's module comes from
 			for _, b := range caller.Blocks {
 				for _, in2 := range b.Instrs {
